@@ -24,12 +24,17 @@ Obligations:
   flag_intersection_exact         flagged nodes == nodes whose set-less name occurs in the other graph, honouring
                                   skip_shared_root / skip_object_roots
 
-Scope: vms vm1 (CentOS) / vm2 (Win10); all (from,to) pairs with `from` an ancestor-or-self of `to` among the setup states
-install, customize, on_customize, connect, linux_virtuser (vm1) / windows_virtuser (vm2) (12 per vm); selections {vm1},
-{vm1,vm2} (+{vm2} thorough); 1..2 workers (3 in thorough); remove_set in default(leaves), minimal, tutorial1,
-leaves..tutorial_gui (+normal thorough).  quick = a fixed core + seed-rotated sample under a time budget (not exhaustive);
-thorough = the full list under a time budget.  Speed: Reparsable.get_params (pure Cartesian parsing, not under check) is
-memoised inside this process (disable with UT_NOCACHE=1).
+Scope: vms vm1 (CentOS) / vm2 (Win10), available vms vm1..vm3; all (from,to) pairs with `from` an ancestor-or-self of `to`
+among the setup states install, customize, on_customize, connect, linux_virtuser (vm1) / windows_virtuser (vm2) (12 per
+vm; pairs whose states are not in the remove_set graph, e.g. vm2 connect, are rejection cases), plus the documented defaults
+and unknown / foreign states; selections {vm1}, {vm1,vm2} (vm2 pairs rotated by the seed), {vm2}; workers 1..2 (3 with the
+default remove_set in thorough); remove_set default(leaves), minimal, tutorial1, leaves..tutorial_gui (+normal in thorough).
+quick: 23 fixed requests (2 vms x 2 workers, rejections, small remove sets, every chain pair once alternating vm1/vm2)
+then a seed-shuffled sample until ~85 s (not exhaustive).  thorough: the whole list under an 18 min budget.
+flag_* checks: every node / name+vm+worker selector of 3 (4 thorough) small parsed graphs x run/clean x skip options;
+every ordered graph pair x options for flag_intersection (exhaustive for those graphs).
+Speed: Reparsable.get_params (pure Cartesian parsing, not under check) is memoised in-process (UT_NOCACHE=1 disables it;
+UT_DEBUG=1 prints every observation on stderr).
 """
 import asyncio
 import contextlib
@@ -362,11 +367,16 @@ def update_cases(tier, rnd):
     parity = shift % 2                                    # every chain pair once, alternately for vm1 and vm2 (seed flips which)
     fixed += [case({"vm1": p1[i]} if i % 2 == parity else {"vm2": p2[i]}) for i in range(len(p1))]
     full = []
-    remove_sets = [None, "minimal", "leaves..tutorial_gui", "tutorial1"] + (["normal"] if tier != "quick" else [])
-    for nets, remove_set in [(n, r) for n in (1, 2) for r in remove_sets] + ([(3, None)] if tier != "quick" else []):
+    small = ["minimal", "leaves..tutorial_gui", "tutorial1"]
+    if tier == "quick":
+        groups = [(n, r) for n in (1, 2) for r in [None] + small]
+    else:       # most expensive/informative groups first; `normal` with one worker, 3 workers with the default remove_set
+        groups = [(1, None), (2, None), (1, "normal"), (3, None)] + [(n, r) for n in (1, 2) for r in small]
+    for nets, remove_set in groups:
         for i, pair in enumerate(p1):
             full.append(case({"vm1": pair}, remove_set, nets))
-            full.append(case({"vm1": pair, "vm2": p2[(i + shift) % len(p2)]}, remove_set, nets))
+            if nets < 3 or i % 4 == shift % 4:
+                full.append(case({"vm1": pair, "vm2": p2[(i + shift) % len(p2)]}, remove_set, nets))
             if tier != "quick" and nets < 3:
                 full.append(case({"vm2": p2[i]}, remove_set, nets))
     if tier == "quick":       # seed-dependent sample: two valid requests for every rejected one
@@ -571,8 +581,8 @@ def main():
         "rule": "update request non-trivial = valid and (path has >1 test or something must be removed); flag_children case "
                 "non-trivial = a unique root exists; flag_intersection case non-trivial = proper non-empty subset or a skip option",
         "bound": f"tier={tier}: update requests {done}/{len(cases)} (first {n_core} fixed, rest "
-                 f"{'seed-shuffled' if tier == 'quick' else 'in order'}; vms vm1/vm2, 12 chain pairs per vm, workers 1..{2 if tier == 'quick' else 3}, "
-                 f"remove_set default/minimal/tutorial1/leaves..tutorial_gui{'/normal' if tier != 'quick' else ''}); flag cases {flag_total}/{flag_total} "
+                 f"{'seed-shuffled' if tier == 'quick' else 'in order'}; vms vm1/vm2, 12 chain pairs per vm, workers 1..{2 if tier == 'quick' else '2 (3 with the default remove_set)'}, "
+                 f"remove_set default/minimal/tutorial1/leaves..tutorial_gui{'/normal (1 worker)' if tier != 'quick' else ''}); flag cases {flag_total}/{flag_total} "
                  f"on graphs {sorted(_GRAPHS)}; failure classes found: {len(seen)}; total failures: {len(failures)}",
         "exhaustive": bool(done == len(cases) and tier != "quick"),
         "samples": cases[:2] + children[5:6] + inter[3:4],
